@@ -247,7 +247,28 @@ func vC13Mutate(r *vRand, ents []vC13Ent, nh int) []vC13Ent {
 	out := append([]vC13Ent{}, ents...)
 	n := 1 + r.intn(3)
 	for k := 0; k < n; k++ {
-		switch op := r.intn(12); {
+		switch op := r.intn(14); {
+		case op >= 12 && len(out) > 0:
+			// exactly ONE option of one entry is set, changed or removed and everything else stays as it was
+			// (an "is this backend unchanged?" shortcut of the reload must look at every option)
+			e := &out[r.intn(len(out))]
+			other := func(cur string, vals ...string) string {
+				for {
+					if v := r.pick(vals); v != cur {
+						return v
+					}
+				}
+			}
+			switch r.intn(4) {
+			case 0:
+				e.secret = other(e.secret, "s-"+e.id+"-0", "s-"+e.id+"-1", "s-"+e.id+"-2")
+			case 1:
+				e.limit = other(e.limit, "", "10", "20", "30")
+			case 2:
+				e.stream = other(e.stream, "", "1000", "2000", "3000")
+			case 3:
+				e.screen = other(e.screen, "", "2000", "4000", "6000")
+			}
 		case op <= 1 && len(out) < 6: // add
 			used := map[string]bool{}
 			for _, e := range out {
